@@ -801,6 +801,18 @@ def run_driver(ctx, specs, batch=120, max_nodes=6000, rules=True):
     return out
 
 
+def _check_one(args):
+    spec, res, nenv, seed = args
+    problems, stats, tie = check_form(spec, res, nenv, seed)
+    case = err = None
+    if tie is not None and not problems:
+        try:
+            case, err = eval_case(res, tie)
+        except Skip:
+            stats['coq-eval-skipped'] += 1
+    return problems, stats, case, err
+
+
 def run(ctx):
     thorough = ctx.tier == 'thorough'
     ok1 = ctx.obligations_stage(PROPS, extra_targets=['C06/Examples.vo'])
@@ -872,6 +884,7 @@ def run(ctx):
     seen_rule = set()
     eval_cases = []
     nviol = 0
+    todo = []
     crashes = collections.Counter()
     for k, (spec, res) in enumerate(zip(specs, results)):
         st = res['status']
@@ -900,8 +913,17 @@ def run(ctx):
                     all_rules['dx'].append((rec[0], rec[1], kinds))
         if st != 'Ok' or 'snaps' not in res:
             continue
+        todo.append((k, spec, res))
+    # the oracle (and the rendering of the Coq evaluation cases) runs in worker processes
+    work = [(spec, res, nenv, '%d-%d' % (ctx.seed, k)) for (k, spec, res) in todo]
+    if len(work) > 2000:
+        from concurrent.futures import ProcessPoolExecutor
+        with ProcessPoolExecutor(max_workers=12) as ex:
+            outs = list(ex.map(_check_one, work, chunksize=40))
+    else:
+        outs = [_check_one(w) for w in work]
+    for (k, spec, res), (problems, s2, case, err) in zip(todo, outs):
         ctx.count(spec['code'], nontrivial=True)
-        problems, s2, tie = check_form(spec, res, nenv, '%d-%d' % (ctx.seed, k))
         stats.update(s2)
         for (sig, text, extra) in problems:
             nviol += 1
@@ -909,17 +931,13 @@ def run(ctx):
                    'evaluate V.exprs before/after in the environment (harness/props/c06_eval.py)'}
             rep.update(extra)
             ctx.report(sig, text + ' | form: ' + spec['code'].replace('\n', ' ; ')[:400], rep)
-        if tie is not None and not problems:
-            try:
-                case, err = eval_case(res, tie)
-                if err:
-                    ctx.report('impl:schedule:missing-variable', err, {'code': spec['code'], 'schedule': res['schedule']})
-                elif case[1] <= 3000:
-                    eval_cases.append((case[0], case[1], {'code': spec['code']}))
-                else:
-                    stats['coq-eval-too-big'] += 1
-            except Skip:
-                stats['coq-eval-skipped'] += 1
+        if err:
+            ctx.report('impl:schedule:missing-variable', err, {'code': spec['code'], 'schedule': res['schedule']})
+        elif case is not None:
+            if case[1] <= 3000:
+                eval_cases.append((case[0], case[1], {'code': spec['code']}))
+            else:
+                stats['coq-eval-too-big'] += 1
     ctx.cov['traces_validated_against_impl'] = stats['envs-checked']
     ctx.cov['property_failures_on_impl'] = nviol
     ctx.cov['forms'] = dict(status)
